@@ -465,6 +465,43 @@ func runC20(c *core.Ctx) {
 		o.Require(countCaps(re) == 3, "expected capture groups for marker, object number and generation")
 		o.Require(strings.Contains(bs, "([0-9]+)"), "object/generation numbers are not captured as digit runs")
 	})
+	c.Check("C20-R4", "pdf.(*scanner).Find/overlap", "the bytes kept across a refill of the search buffer cover the longest marker that must be found: an object header with the largest legal object number and generation (a header that straddles a refill boundary is otherwise matched at the wrong place or not at all, and a complete object is lost)", func(o *core.Ob) {
+		fn := c.Prog.Func("pdf", "(*scanner).Find")
+		info := fn.Info()
+		var keep []int64
+		ast.Inspect(fn.Decl.Body, func(n ast.Node) bool {
+			be, ok := n.(*ast.BinaryExpr)
+			if !ok || be.Op != token.SUB {
+				return true
+			}
+			if _, name, ok := selName(be.X); !ok || name != "used" {
+				return true
+			}
+			if k, ok := core.IntConst(info, be.Y); ok {
+				keep = append(keep, k)
+				o.At(fn.Site(be, "bytes kept across the refill"))
+			}
+			return true
+		})
+		if !o.Shape(len(keep) > 0, "the position from which the search resumes after a refill (fill level minus a constant) was not found") {
+			return
+		}
+		digits := func(n int64) int64 {
+			d := int64(1)
+			for n >= 10 {
+				n /= 10
+				d++
+			}
+			return d
+		}
+		maxNum := c.Prog.ConstInt("pdf", "maxXRefSize") - 1
+		// CR LF, object number, one white-space byte, generation (at most 65535), one white-space byte, "obj"
+		need := 2 + digits(maxNum) + 1 + digits(65535) + 1 + 3
+		o.Fact("longest object header that must be found: %d bytes (object numbers up to %d); kept across a refill: %v", need, maxNum, keep)
+		for _, k := range keep {
+			o.Require(k >= need-1, "only %d bytes are kept across a refill; a header of %d bytes (\\r\\n%d 65535 obj) that straddles the boundary needs %d", k, need, maxNum, need-1)
+		}
+	})
 	c.Check("C20-R2", "pdf.(*scanner).Find/eof", "the marker search reports end of input only when a refill brought no new bytes (the fill level sampled before and after the refill is equal): every byte that arrives is searched before EOF is reported, also a short tail behind the overlap region", func(o *core.Ob) {
 		fn := c.Prog.Func("pdf", "(*scanner).Find")
 		g := fn.Graph()
